@@ -14,7 +14,9 @@ Direct oracle (independent of graphiq and, except for the orbit table, of the mo
     blocks; the returned gates, applied to the graph state of A by the *verified tableau model*, give exactly the graph
     state of B (signs included); the returned vertex sequence, applied by definition, maps A to B;
   * `no` answers: the graphs are in different orbits (a false `no` in the region of known finding D14 is keyed as such);
-  * `lc_check` on tableaux: the total gate list, run by the verified tableau model on state 1, gives state 2.
+  * `lc_check` on tableaux: no exception on stabilizer states (regression inputs of the repaired D40: |0>, |0>|+>, |0> x Bell compared
+    with themselves); the total gate list, run by the verified tableau model on state 1, gives state 2; a false `no` is keyed by the
+    solution dimension on the graphs state_to_graph chose (>= 5: D14 — e.g. every state with an unentangled qubit, n >= 2).
 """
 import numpy as np
 
@@ -40,7 +42,6 @@ ASSUMPTIONS = [
 
 K_FALSE_NO_D14 = "is_lc_equivalent:solution_dim>=5:false-negative"
 K_FIND_LC = "find_lc_operations:wrong-sequence"
-K_D40 = "lc_check:state_to_graph:position_finder:AssertionError"
 FUEL = 400
 
 
@@ -403,10 +404,55 @@ def stab_of(t):
 TOK = {"H": "h", "P": "s", "P_dag": "sdg", "X": "x", "Y": "y", "Z": "z"}
 
 
-def check_tableau_inputs(res, drv, orb, rng, count, nmax):
-    """lc_check on tableau inputs: every returned gate list is run by the verified tableau model on state 1"""
+def check_tableau_pair(res, drv, t1, t2, same, inp, target=None):
+    """lc_check(t1, t2) on two stabilizer states (graphiq tableaux; t2 may be a graph whose generators are `target`); `same` = the two
+    states are LC-equivalent (decided by the caller independently of graphiq).  Direct oracle: no exception; the answer equals `same`;
+    a returned gate list, run by the verified tableau model on state 1, gives exactly state 2.  A false `no` is classified by the
+    dimension of the solution space on the two graphs `state_to_graph` chose (>= 5: the known finding D14)."""
     from graphiq.backends.stabilizer.functions.local_cliff_equi_check import lc_check
 
+    try:
+        ok, gates = lc_check(t1, t2, validate=True)
+    except Exception as e:  # noqa: BLE001
+        err = err_class(e)
+        res.count("errors", f"tab:{err}")
+        gu.viol(res, f"lc_check:tableau:raises:{err}", f"lc_check raised on two stabilizer states: {str(e)[:80]}", input=inp)
+        return "raises"
+    if ok and not same:
+        gu.viol(res, "lc_check:tableau:false-yes", "lc_check answered yes for states whose graphs lie in different LC orbits", input=inp)
+        return "false-yes"
+    if not ok:
+        if same:
+            # the decision is taken on the graphs chosen by state_to_graph: classify a false no by the solution dimension there
+            from graphiq.backends.state_rep_conversion import state_to_graph
+
+            g1, g2 = gu.to_adj(state_to_graph(t1)[0]), gu.to_adj(state_to_graph(t2)[0])
+            rep = drv.ask(f"lc.equiv {gu.adj_args(g1)} {gu.adj_args(g2, 'b', with_n=False)} mode=det")
+            dim = int(rep.get("dim", 0)) if rep["_status"] == "ok" else 0
+            key = K_FALSE_NO_D14 if dim >= 5 else "lc_check:tableau:false-no"
+            gu.viol(res, key, "lc_check answered no for two LC-equivalent stabilizer states", input=inp, solution_dim=dim,
+                    graphs=[gu.adj_args(g1), gu.adj_args(g2)])
+            return "false-no:dim>=5" if dim >= 5 else "false-no"
+        return "no"
+    # run the gates with the verified tableau model on state 1, compare the signed stabilizer group with state 2
+    # build a Clifford tableau line for tab.run: destabilizers are irrelevant for the stabilizer group; use state 1's own
+    from graphiq.backends.stabilizer.functions.rep_conversion import clifford_from_stabilizer
+    from graphiq.backends.stabilizer.clifford_tableau import CliffordTableau
+
+    c1 = t1 if isinstance(t1, CliffordTableau) else clifford_from_stabilizer(t1)
+    ops = ",".join(f"{TOK[g[0]]}:{int(g[1])}" for g in gates if g[0] != "I") or "-"
+    rep = drv.ask(f"tab.run {tu.tab_args(c1)} ops={ops}")
+    x2, z2, r2 = target if target is not None else stab_of(t2)
+    if rep["_status"] != "ok" or tu.canon_from_reply(rep) != tu.span_canon(x2, z2, r2):
+        gu.viol(res, "lc_check:tableau:gates-do-not-map-state", "the returned gate list, run by the verified tableau semantics on state 1, must give state 2",
+                input=inp, gates=gu.gates_str(gates), model=rep["_raw"][:200])
+        return "wrong-gates"
+    res.traces_validated += 1
+    return "yes"
+
+
+def check_tableau_inputs(res, drv, orb, rng, count, nmax):
+    """lc_check on tableau inputs: every returned gate list is run by the verified tableau model on state 1"""
     for _ in range(count):
         n = rng.randrange(1, nmax + 1)
         A = gu.structured_graph(rng, n)
@@ -423,55 +469,39 @@ def check_tableau_inputs(res, drv, orb, rng, count, nmax):
         inp = {"a": gu.adj_args(A), "b": gu.adj_args(B, "b", with_n=False), "kinds": [k1, k2], "gates1": gu.gates_str(g1), "gates2": gu.gates_str(g2)}
         res.evaluations += 1
         res.count("sizes", f"tab:n={n}")
-        try:
-            ok, gates = lc_check(t1, t2, validate=True)
-            err = None
-        except AssertionError as e:
-            ok, gates, err = None, None, "assertion"
-            if "independent" in str(e) or "Unexpected X" in str(e) or "not a graph" in str(e):
-                gu.viol(res, K_D40, "state_to_graph fails on a stabilizer state (Hadamard-position heuristic)", input=inp)
-                continue
-        except Exception as e:  # noqa: BLE001
-            ok, gates, err = None, None, err_class(e)
-        if err is not None:
-            res.count("errors", f"tab:{err}")
-            gu.viol(res, f"lc_check:tableau:raises:{err}", "lc_check raised on two stabilizer states", input=inp)
-            continue
-        same = orb.same_orbit(A, B)
-        res.nontrivial("tab", inp["a"], inp["b"], inp["gates1"], inp["gates2"], k1, k2)
-        if ok and not same:
-            gu.viol(res, "lc_check:tableau:false-yes", "lc_check answered yes for states whose graphs lie in different LC orbits", input=inp)
-            continue
-        if not ok:
-            if same:
-                # the decision is taken on the graphs chosen by state_to_graph: classify a false no by the solution dimension there
-                from graphiq.backends.state_rep_conversion import state_to_graph
+        out = check_tableau_pair(res, drv, t1, t2, orb.same_orbit(A, B), inp, target=gu.graph_state_generators(B) if k2 == "graph" else None)
+        if out != "raises":
+            res.nontrivial("tab", inp["a"], inp["b"], inp["gates1"], inp["gates2"], k1, k2)
+        res.branch(["tab:" + out])
 
-                g1, g2 = gu.to_adj(state_to_graph(t1)[0]), gu.to_adj(state_to_graph(t2)[0])
-                rep = drv.ask(f"lc.equiv {gu.adj_args(g1)} {gu.adj_args(g2, 'b', with_n=False)} mode=det")
-                dim = int(rep.get("dim", 0)) if rep["_status"] == "ok" else 0
-                key = K_FALSE_NO_D14 if dim >= 5 else "lc_check:tableau:false-no"
-                gu.viol(res, key, "lc_check answered no for two LC-equivalent stabilizer states", input=inp, solution_dim=dim)
-            continue
-        # run the gates with the verified tableau model on state 1, compare the signed stabilizer group with state 2
-        x1, z1, r1 = stab_of(t1)
-        nq = len(x1)
-        # build a Clifford tableau line for tab.run: destabilizers are irrelevant for the stabilizer group; use state 1's own
-        from graphiq.backends.stabilizer.functions.rep_conversion import clifford_from_stabilizer
-        from graphiq.backends.stabilizer.clifford_tableau import CliffordTableau
 
-        c1 = t1 if isinstance(t1, CliffordTableau) else clifford_from_stabilizer(t1)
-        ops = ",".join(f"{TOK[g[0]]}:{int(g[1])}" for g in gates if g[0] != "I") or "-"
-        rep = drv.ask(f"tab.run {tu.tab_args(c1)} ops={ops}")
-        if k2 == "graph":
-            x2, z2, r2 = gu.graph_state_generators(B)
-        else:
-            x2, z2, r2 = stab_of(t2)
-        if rep["_status"] != "ok" or tu.canon_from_reply(rep) != tu.span_canon(x2, z2, r2):
-            gu.viol(res, "lc_check:tableau:gates-do-not-map-state", "the returned gate list, run by the verified tableau semantics on state 1, must give state 2",
-                          input=inp, gates=gu.gates_str(gates), model=rep["_raw"][:200])
-        else:
-            res.traces_validated += 1
+# states whose qubit 0 has no X component after row reduction: state_to_graph raised on them before the repair of D40 (/repo 86ab4f1)
+# (generators as Pauli strings, all signs +): |0>, |0>|+>, |0> x Bell
+FORMER_D40_STATES = [["Z"], ["ZX", "ZI"], ["IXX", "ZII", "IZZ"]]
+
+
+def stab_of_paulis(rows):
+    from graphiq.backends.stabilizer.tableau import StabilizerTableau
+
+    x = np.array([[int(c in "XY") for c in r] for r in rows], dtype=int)
+    z = np.array([[int(c in "ZY") for c in r] for r in rows], dtype=int)
+    return StabilizerTableau([x, z], np.zeros(len(rows), dtype=int))
+
+
+def former_d40_inputs(res, drv):
+    """regression inputs of the repaired defect D40: `lc_check(state, state)` on states with qubit 0 in |0> must not raise.  The state is
+    LC-equivalent to itself, so the only correct answer is `yes` with a gate list fixing the state; for n >= 2 the graph chosen by
+    state_to_graph has vertex 0 isolated and `is_lc_equivalent` answers no there — reported through the D14 key when (and only when)
+    the solution space of that pair has dimension >= 5, as for every other false no."""
+    for rows in FORMER_D40_STATES:
+        t1, t2 = stab_of_paulis(rows), stab_of_paulis(rows)
+        inp = {"generators": ",".join(rows), "kinds": ["stab", "stab"], "case": "former-D40:lc_check(state, state)"}
+        res.evaluations += 1
+        res.count("sizes", f"tab:n={len(rows)}")
+        out = check_tableau_pair(res, drv, t1, t2, True, inp)
+        res.nontrivial("tab:former-D40", inp["generators"])
+        res.branch(["tab:former-D40:" + out])
+        res.sample(f"lc_check({inp['generators']}, same) -> {out}")
 
 
 # ---------------------------------------------------------------------------------------------------- run
@@ -547,18 +577,6 @@ def d14_witnesses(res, drv, orb):
         res.known.append((K_FALSE_NO_D14, "2K2 / K2+K1 compared with themselves answer no"))
     else:
         res.known_gone.append(K_FALSE_NO_D14)
-    # D40 where it touches lc_check: the one-qubit |0> (a stabilizer state LC-equivalent to the one-vertex graph state)
-    from graphiq.backends.stabilizer.functions.local_cliff_equi_check import lc_check
-    from graphiq.backends.stabilizer.tableau import StabilizerTableau
-
-    try:
-        lc_check(StabilizerTableau(1), StabilizerTableau(1))
-        res.known_gone.append(K_D40)
-    except AssertionError:
-        res.known.append((K_D40, "lc_check(|0>, |0>) raises AssertionError in state_to_graph"))
-    except Exception:  # noqa: BLE001
-        res.known_gone.append(K_D40)
-    res.evaluations += 1
 
 
 def random_pairs(res, drv, orb, rng, count, nmin, nmax, modes, deep=True):
@@ -634,6 +652,7 @@ def run(ctx):
     rng = ctx.rng
     check_ops_table(res, drv)
     d14_witnesses(res, drv, orb)
+    former_d40_inputs(res, drv)
     malformed(res, drv, rng)
     # local complementation: exhaustive small, random larger
     nlc = 4 if ctx.quick else 5
@@ -666,7 +685,7 @@ def search(ctx, res, proof_broken):
         exhaustive_pairs(res, drv, orb, n)
         if res.violations:
             break
-    if not [v for v in res.violations if v["key"] not in (K_FALSE_NO_D14, K_D40)]:
+    if not [v for v in res.violations if v["key"] != K_FALSE_NO_D14]:
         random_pairs(res, drv, orb, ctx.rng, 600, 2, 6, ("deterministic", "random"))
         check_local_comp(res, drv, [gu.graph_of_mask(5, m) for m in range(0, 1024, 3)], "search n=5")
     drv.close()
